@@ -531,3 +531,15 @@ func (c *Ctx) ModelDedup(lines []string) []string {
 	}
 	return res
 }
+
+// Watch guards one unit of work on the real code with a wall-clock limit. If the limit passes, the
+// work is reported as a violation (a hang is an outcome the properties never allow: every operation
+// is total on the generated inputs, and streams are never constant), evidence is written and the
+// process exits — a goroutine stuck in library code cannot be cancelled.
+func (c *Ctx) Watch(limit time.Duration, key, what string, replay any, level string) (done func()) {
+	t := time.AfterFunc(limit, func() {
+		c.Violation("hang:"+key, "operation did not finish within "+limit.String()+": "+what, replay)
+		os.Exit(c.Finish(level))
+	})
+	return func() { t.Stop() }
+}
